@@ -15,7 +15,7 @@ func init() {
 	property("C17",
 		"Static determinism and independence: (a) every range over a map only fills a set/map or a slice that is sorted before any other use; (b) no function outside package initialisation writes a package-level variable or a map/slice held in one (no state survives a compilation); (e) the blank line between top-level outputs is written exactly when something was emitted before: its guard reads a counter that goes up by one with every emitted output and with nothing else (not the position of the statement in the file, which also counts statements emitted elsewhere); (c) library code contains no goroutine, channel operation, select, or call into time / math/rand / crypto/rand / environment lookups, and reads files only in LoadFontConfig and main; (d) Emitter fields are written only by New, no emitter function updates a map it did not create itself (the text-label set is filled only in Emit), and the Parser fields written while parsing are exactly the token window, the scope stacks, the font cache, the constant table and the hoisting tables the property allows. The address of a package-level variable is only loaded from (C17.b); map ranges carry only order-insensitive values (C17.a); the font table is read-only once loaded (C17.g). The command-line wrapper adds nothing (C17.h): Emit's result reaches the file or stdout as it is, the file is truncated, flags are never overwritten, no byte of the input is rewritten; map ranges neither return early with an element-derived value nor fill a map under a computed key (C17.a).",
 		[]string{"determinism of the Go runtime and of the standard-library functions used (fmt, strings, sort, strconv, regexp, encoding/json)", "go/ssa lowering is faithful to the source"},
-		"C17.a", "C17.b", "C17.c", "C17.d", "C17.e", "C17.f", "C20.a", "C06.b", "C20.d", "C17.g", "C17.h", "C06.f", "C10.f", "C05.a", "C18.m", "C18.n", "C18.d")
+		"C17.a", "C17.b", "C17.c", "C17.d", "C17.e", "C17.f", "C20.a", "C06.b", "C20.d", "C17.g", "C17.h", "C06.f", "C10.f", "C05.a", "C18.m", "C18.n", "C18.d", "C19.b")
 
 	register(&Rule{ID: "C17.a", Doc: "map iteration is order-insensitive (fills a set, or a slice sorted before use)", Floor: 4, Run: c17a})
 	register(&Rule{ID: "C17.b", Doc: "no package-level state is written outside init", Floor: 1, Run: c17b})
@@ -102,8 +102,31 @@ func c17a(c *Ctx) {
 							slices = append(slices, ia.X)
 							continue
 						}
-						if _, ok := y.Addr.(*ssa.Alloc); ok {
-							continue // local scalar
+						if al, ok := y.Addr.(*ssa.Alloc); ok {
+							// a local that lives in memory (captured by a closure, address taken): what is
+							// left in it after the loop must not depend on which element came last —
+							// a constant, a value made outside the loop, or a count (itself plus a constant)
+							okVal := false
+							switch v := y.Val.(type) {
+							case *ssa.Const:
+								okVal = true
+							case *ssa.BinOp:
+								if ld, isLd := v.X.(*ssa.UnOp); isLd && ld.X == ssa.Value(al) {
+									_, okVal = v.Y.(*ssa.Const)
+								}
+								if !okVal && !body[v.Block()] {
+									okVal = true
+								}
+							case ssa.Instruction:
+								okVal = !body[v.Block()]
+							default:
+								okVal = true // parameters, globals
+							}
+							if okVal {
+								continue
+							}
+							bad = "leaves " + c.term(fn, y.Val) + ", made from the element at hand, in the variable " + c.term(fn, al) + " that outlives the loop (with several matching elements, which one remains depends on the iteration order)"
+							continue
 						}
 						bad = "stores to " + c.term(fn, y.Addr)
 					case ssa.CallInstruction:
